@@ -72,6 +72,13 @@ func plan(tier string, seed int64) []driver.Case {
 			}
 		}
 	}
+	// operators configured with a RELATIVE duration: the duration counts from each item of each subscription,
+	// not from the moment the operator value or the pipeline was built
+	for _, op := range []string{"ContextWithTimeout"} {
+		for _, order := range []string{"A", "AA", "AB", "ABA"} {
+			cases = append(cases, driver.Case{ID: fmt.Sprintf("relative-duration/%s/%s", op, order), P: map[string]string{"kind": "relative-duration", "op": op, "order": order}})
+		}
+	}
 	var usable []*catalog.Entry
 	for _, e := range catalog.Chainable() {
 		if !e.Flags.Has(catalog.Blocks) && !e.Flags.Has(catalog.NonDet) && !e.Flags.Has(catalog.Hot) {
@@ -343,6 +350,12 @@ func cp[T any](f func(ro.Observable[int]) ro.Observable[T]) func(ro.Observable[i
 	return func(o ro.Observable[int]) catalog.Pipeline { return catalog.P(f(o)) }
 }
 
+// roomy copies x into a slice with spare capacity.
+func roomy(x []ro.Observable[int]) []ro.Observable[int] {
+	out := make([]ro.Observable[int], 0, len(x)+6)
+	return append(out, x...)
+}
+
 var curriedOps = []curried{
 	{"MergeWith", func(x []ro.Observable[int]) func(ro.Observable[int]) catalog.Pipeline {
 		return cp(ro.MergeWith(x[0], x[1]))
@@ -368,6 +381,20 @@ var curriedOps = []curried{
 	}},
 	{"RaceWith", func(x []ro.Observable[int]) func(ro.Observable[int]) catalog.Pipeline {
 		return cp(ro.RaceWith(x[0], x[1]))
+	}},
+	// the variadic ones called with a spread slice that has spare capacity (a list grown with append):
+	// the operator value must not write into the caller's backing array
+	{"ConcatWith(spread)", func(x []ro.Observable[int]) func(ro.Observable[int]) catalog.Pipeline {
+		return cp(ro.ConcatWith(roomy(x)...))
+	}},
+	{"MergeWith(spread)", func(x []ro.Observable[int]) func(ro.Observable[int]) catalog.Pipeline {
+		return cp(ro.MergeWith(roomy(x)...))
+	}},
+	{"RaceWith(spread)", func(x []ro.Observable[int]) func(ro.Observable[int]) catalog.Pipeline {
+		return cp(ro.RaceWith(roomy(x)...))
+	}},
+	{"OnErrorResumeNextWith(spread)", func(x []ro.Observable[int]) func(ro.Observable[int]) catalog.Pipeline {
+		return cp(ro.OnErrorResumeNextWith(roomy(x)...))
 	}},
 	{"OnErrorResumeNextWith", func(x []ro.Observable[int]) func(ro.Observable[int]) catalog.Pipeline {
 		return cp(ro.OnErrorResumeNextWith(x[0], x[1]))
@@ -512,6 +539,58 @@ func runOpValueCurried(c driver.Case) driver.Result {
 	return res
 }
 
+// runRelativeDuration: one ContextWithTimeout(d) value applied to the sources named by order (the same letter
+// twice = the same pipeline subscribed again). The deadline an item travels with is d after a moment between
+// the Subscribe call that produced it and its delivery - whenever the operator value was built. Clock readings
+// are compared with each other only (the monotonic order build < subscribe <= item <= delivery), no waiting.
+func runRelativeDuration(c driver.Case) driver.Result {
+	res := driver.Result{Verdict: driver.Held}
+	const d = time.Hour
+	opValue := ro.ContextWithTimeout[int](d)
+	built := time.Now()
+	pipes := map[byte]ro.Observable[int]{}
+	for i := 0; i < len(c.Get("order")); i++ {
+		l := c.Get("order")[i]
+		if pipes[l] == nil {
+			pipes[l] = opValue(ro.Just(1, 2, 3))
+		}
+	}
+	for i := 0; i < len(c.Get("order")); i++ {
+		l := c.Get("order")[i]
+		var problem string
+		n := 0
+		t0 := time.Now()
+		sub := pipes[l].Subscribe(ro.NewObserverWithContext(func(ctx context.Context, v int) {
+			t1 := time.Now()
+			n++
+			dl, ok := ctx.Deadline()
+			switch {
+			case problem != "":
+			case !ok:
+				problem = fmt.Sprintf("value %d travels without a deadline", v)
+			case dl.Before(t0.Add(d)):
+				problem = fmt.Sprintf("value %d of the subscription made %v after the operator value was built travels with a deadline %v before (Subscribe call + %v): the duration was not counted from the item", v, t0.Sub(built), t0.Add(d).Sub(dl), d)
+			case dl.After(t1.Add(d)):
+				problem = fmt.Sprintf("value %d travels with a deadline %v after (delivery + %v)", v, dl.Sub(t1.Add(d)), d)
+			}
+		}, func(context.Context, error) {}, func(context.Context) {}))
+		unsub(sub)
+		res.Events += int64(n)
+		if problem == "" && n != 3 {
+			problem = fmt.Sprintf("%d values delivered instead of 3", n)
+		}
+		if problem != "" {
+			res.Verdict, res.Key = driver.Violated, "C12/"+c.Get("op")+"/relative-duration-counted-from-construction"
+			res.Msg = fmt.Sprintf("%s(%v), one operator value, applications/subscriptions %s, subscription #%d: %s", c.Get("op"), d, c.Get("order"), i, problem)
+			return res
+		}
+	}
+	res.Nontrivial = true
+	res.Sig = "relative-duration/" + c.Get("op") + "/" + c.Get("order")
+	res.Sample = map[string]any{"operator": c.Get("op"), "order": c.Get("order"), "deadline_window": "Subscribe call + d <= deadline <= delivery + d"}
+	return res
+}
+
 func runOpValue(c driver.Case) driver.Result {
 	e := catalog.Get(c.Get("entry"))
 	order := c.Get("order")
@@ -610,6 +689,8 @@ func runCase(c driver.Case) driver.Result {
 		return runOpValue(c)
 	case "opvalue-curried":
 		return runOpValueCurried(c)
+	case "relative-duration":
+		return runRelativeDuration(c)
 	}
 	return runResub(c)
 }
